@@ -123,12 +123,17 @@ def check(run, F, tier):
             for e in rc:
                 term = e[4][1]
                 # find the enum type from constraints
-                for k, c in p.cons.items():
-                    if k[0] == "discr" and k[1] == term:
-                        poss = conn.possible(F, p, term, k[2])
-                        dom = conn.enum_domain(F, k[2])
-                        if poss == {dom.get(0)}:
-                            okp = True
+                adts_ = {k[2] for k, c in p.cons.items() if k[0] == "discr" and k[1] == term}
+                if not adts_:
+                    # no discriminant test: the enum type from the accessor's return type
+                    g_ = F.fns.get(e[1])
+                    if g_ is not None and g_["locals"][0] in F.adts:
+                        adts_ = {g_["locals"][0]}
+                for adt_ in adts_:
+                    poss = conn.rc_possible(F, p, term, adt_)
+                    dom = conn.enum_domain(F, adt_)
+                    if poss == {dom.get(0)}:
+                        okp = True
             if not okp:
                 bad = bad or (p, w, "CONNACK emitted without RequestClose on a path not restricted to the success code")
         key = "%s_%s" % (ver, kind)
